@@ -24,7 +24,7 @@ MUTANTS = [
     M("delimiter-default-bracket", F, 'if end_chr is not None else ")"', 'if end_chr is not None else "]"', "C19-LIN"),
     M("docx-first-omath-only", "sharepoint2text/parsing/extractors/ms_modern/docx_extractor.py", "            for omath in elem.findall(M_OMATH):\n                latex = omml_to_latex(omath)\n                if latex.strip():\n                    parts.append(f\"$${latex}$$\")\n", "            omath = elem.find(M_OMATH)\n            if omath is not None:\n                latex = omml_to_latex(omath)\n                if latex.strip():\n                    parts.append(f\"$${latex}$$\")\n", "C19-LIN"),
     M("pptx-first-omath-only", "sharepoint2text/parsing/extractors/ms_modern/pptx_extractor.py", "        for omath in omath_para.findall(M_OMATH):\n            omath_in_para.add(id(omath))\n            latex = omml_to_latex(omath)\n            if latex.strip():\n                formulas.append((latex, True))\n", "        omath = omath_para.find(M_OMATH)\n        if omath is not None:\n            omath_in_para.add(id(omath))\n            latex = omml_to_latex(omath)\n            if latex.strip():\n                formulas.append((latex, True))\n", "C19-LIN"),
-    Variant("template-helper-drops-command-for-empty-argument", [(F, "def omml_to_latex(omath_element: ET.Element | None) -> str:\n", "def _command(command: str, argument: str) -> str:\n    if not argument.strip():\n        return \"\"\n    return f\"{command}{{{argument}}}\"\n\ndef omml_to_latex(omath_element: ET.Element | None) -> str:\n"), (F, "            return f\"\\\\overline{{{content_text}}}\"\n", "            return _command(\"\\\\overline\", content_text)\n")], "C19-LIN"),
+    Variant("template-helper-drops-command-for-empty-argument", [(F, "def omml_to_latex(omath_element: ET.Element | None) -> str:\n", "def _command(command: str, argument: str) -> str:\n    if not argument.strip():\n        return \"\"\n    return f\"{command}{{{argument}}}\"\n\ndef omml_to_latex(omath_element: ET.Element | None) -> str:\n"), (F, "            return f\"{latex_fname}{{{content_text}}}\"\n", "            return _command(latex_fname, content_text)\n")], "C19-LIN"),
     Variant("template-helper-unbalanced", [(F, "def omml_to_latex(omath_element: ET.Element | None) -> str:\n", "def _command(command: str, argument: str) -> str:\n    return f\"{command}{{{argument}\"\n\ndef omml_to_latex(omath_element: ET.Element | None) -> str:\n"), (F, "            return f\"\\\\overline{{{content_text}}}\"\n", "            return _command(\"\\\\overline\", content_text)\n")], "C19-BAL"),
     M("skip-list-names-argument-element", F, '        "rPr",\n        "fPr",', '        "rPr",\n        "fName",\n        "fPr",', "C19-LIN"),
     M("only-math-namespace-converted", F, '        tag = elem.tag.split("}")[-1]\n', '        if not elem.tag.startswith(M_NS):\n            return ""\n        tag = elem.tag.split("}")[-1]\n', "C19-LIN"),
